@@ -11,5 +11,6 @@ def check(ctx):
     separation.min_sep_lookup(ctx, 'C06-R4')
     separation.no_write_after_merge(ctx, 'C06-R5')
     baseheight.parameter_binding(ctx, 'C06-R6')
+    separation.remerge_bookkeeping(ctx, 'C06-R7')
     ctx.undecided += ['the numerical separation itself; re-merged mixture components (excluded by the property); '
                       'that the base of a merged group stays between the bases of its parts']
